@@ -498,6 +498,11 @@ class AstToDjangoQVisitor(visitor.NodeVisitor):
         if isinstance(node, (Q, Exists)):
             return node
 
+        if isinstance(node, (F, Value)):
+            # A bare field or literal is not a condition Django can filter on:
+            # `.filter(Q(F("flag")))` raises a TypeError deep inside the ORM.
+            raise ex.TypeException("filter", str(node))
+
         if not DJANGO_LT_4:
             return Q(node)
 
